@@ -336,14 +336,19 @@ func (r *Run) query(extra *Term, install bool) Res {
 			}
 			lits = append(lits, t)
 		}
-		if !r.impDone[extra] {
-			s.AssertImp(extra)
-			r.impDone[extra] = true
-		}
-		lits = append(lits, extra)
+		// extra is asserted in an inner scope and popped afterwards: inactive implications left behind
+		// in the run scope were observed to send the solver into very long searches
+		s.Push()
+		s.Assert(extra)
 		res, core = s.CheckAssuming(lits)
+		core = append(core, extra)
 	}
 	w.nQueries++
+	if s.restarted {
+		s.restarted = false
+		r.solverOpen = false
+		r.impDone = nil
+	}
 	if res == Unsat && core != nil && w.ex.cfg.MaxCache > 0 {
 		var ch [][2]uint64
 		for _, t := range core {
@@ -388,9 +393,7 @@ func (r *Run) query(extra *Term, install bool) Res {
 			}
 		}
 	}
-	if w.ex.cfg.SliceOnly {
-		s.Pop()
-	}
+	s.Pop()
 	if res == Sat && vals != nil {
 		w.ex.poolPut(vars, w.ctx, vals)
 	}
